@@ -413,6 +413,23 @@ def repeated_labels(ctx, Model):
                 ctx.violation('label-error-class', f'{where}={dup!r} occurs twice in the span ({kind}): expected KeyError, got {r}', case)
             elif not state_equal(before, snapshot(m)) or m.__dict__['v_log']:
                 ctx.violation('label-error-after-solving', f'{where}={dup!r} raised KeyError after solving something', case)
+        # a run whose ends are unique labels passes *through* the repeated one: solve() goes by position from start to end, visiting
+        # each period once, like the ordered loop of solve_t()
+        for span_f in (make_span, lambda: list(make_span())):
+            A, B = Model(span_f(), tol=0.5, X=1.0), Model(span_f(), tol=0.5, X=1.0)
+            n_ = len(A.span)
+            for obj in (A, B):
+                obj.__dict__['v_scripts_by_t'] = {p: [('small', 'same')] for p in range(n_)}
+            first, last = list(A.span)[0], list(A.span)[-1]
+            if list(A.span).count(first) != 1 or list(A.span).count(last) != 1:
+                continue
+            ra = call(A.solve, start=first, end=last, failures='ignore')
+            rb = [call(B.solve_t, p, failures='ignore') for p in range(n_)]
+            ctx.count('twin_runs_compared')
+            visited = [x[1] for x in A.__dict__['v_log'] if x[0] == 'before']
+            if ra[0] != 'ret' or visited != list(range(n_)) or list(A.status) != list(B.status) or list(ra[1][1]) != list(range(n_)):
+                ctx.violation('solve-vs-loop-outcome', f'solve(start={first!r}, end={last!r}) over {type(A.span).__name__} {list(A.span)} (a label repeated inside the range): -> {str(ra)[:160]}, visited {visited}, statuses {list(A.status)}; '
+                                                       f'the ordered loop of solve_t gives statuses {list(B.status)}', dict(span_kind=kind, through_repeated=True))
         m = Model(make_span(), tol=0.5, X=1.0)
         m.__dict__['v_scripts_by_t'] = {}
         r = call(m.solve_period, unique, failures='ignore')
